@@ -26,6 +26,7 @@ type GConf struct {
 	Binds  [][3]string // acl, direction, interface ("" = global)
 	Routes []string
 	Extra  []string // further lines / blocks, printed verbatim
+	VPN    *GVPN
 }
 
 func (c *GConf) clone() *GConf {
@@ -40,6 +41,7 @@ func (c *GConf) clone() *GConf {
 	n.Binds = append(n.Binds, c.Binds...)
 	n.Routes = append(n.Routes, c.Routes...)
 	n.Extra = append(n.Extra, c.Extra...)
+	n.VPN = c.VPN.clone()
 	return n
 }
 
@@ -95,6 +97,7 @@ func (c *GConf) Text(device bool) string {
 		for _, r := range c.Routes {
 			b.WriteString(r + "\n")
 		}
+		b.WriteString(c.VPN.Text())
 		for _, e := range c.Extra {
 			b.WriteString(e + "\n")
 		}
@@ -130,6 +133,8 @@ type Gen struct {
 	uniq int
 	// Small universe for C14: few hosts, nets, ports.
 	Small bool
+	// Generate VPN objects (ASA).
+	WithVPN bool
 }
 
 func (g *Gen) host() string {
@@ -300,6 +305,9 @@ func (g *Gen) Target() *GConf {
 		}
 	}
 	g.pruneGroups(c)
+	if g.Kind == "asa" && !g.Small && g.WithVPN && g.Rng.Intn(2) == 0 {
+		c.VPN = g.TargetVPN(c.Intfs[len(c.Intfs)-1])
+	}
 	return c
 }
 
@@ -349,6 +357,12 @@ func (g *Gen) Device(t *GConf, nedits int, unmanaged bool) (*GConf, []string) {
 	var ops []string
 	drc := 0
 	for k := 0; k < nedits; k++ {
+		if d.VPN != nil && g.Rng.Intn(2) == 0 {
+			if op := g.EditVPN(d.VPN); op != "" {
+				ops = append(ops, op)
+			}
+			continue
+		}
 		switch g.Rng.Intn(16) {
 		case 0: // generated names on device
 			for _, a := range d.ACLs {
@@ -487,6 +501,15 @@ func (g *Gen) Device(t *GConf, nedits int, unmanaged bool) (*GConf, []string) {
 					ops = append(ops, "route-missing")
 				case 2:
 					a, _ := g.netAddr()
+					dup := false
+					for _, r := range d.Routes {
+						if strings.Contains(r, " "+a+" ") {
+							dup = true
+						}
+					}
+					if dup {
+						break
+					}
 					if g.Kind == "asa" {
 						d.Routes = append(d.Routes, fmt.Sprintf("route %s %s 255.255.255.0 10.8.1.1", d.Intfs[0], a))
 					} else {
